@@ -23,7 +23,7 @@ RULE = (
 )
 ASSUMPTIONS = ["only soundness of positive lemma verdicts is a property (the lemma is not complete)", "N = 6 (7 thorough); oracle: vf/oracle/mesh.py"]
 REQUIRED = ["calls.MeshPatt.can_shade", "calls.MeshPatt.can_simul_shade", "calls.MeshPatt.shadable_boxes", "calls.MeshPatt.add_point",
-            "calls.MeshPatt.add_increase", "calls.MeshPatt.add_decrease", "calls.MeshPatt.shade", "calls.MeshPatt.ascii_plot",
+            "calls.MeshPatt.add_increase", "calls.MeshPatt.add_decrease", "calls.MeshPatt.shade", "calls.MeshPatt.ascii_plot", "calls.Perm.ascii_plot", "calls.MeshPatt.has_anchored_point", "calls.MeshPatt.non_pointless_boxes", "calls.MeshPatt.__str__", "calls.MeshPatt.__bool__",
             "lemma.positive_single", "lemma.positive_pair", "lemma.table_entries", "insertion.decisions", "plot.parsed", "history.derived_objects", "history.mixed_lengths"]
 MIN_NONTRIVIAL = 300
 CTX = None
@@ -253,6 +253,75 @@ def post_plot(args, kwargs, res, exc):
         report("plot", [enc(P), cs], f"ascii_plot(cell_size={cs}) of {P!r} parses back to ({got[0]}, {sorted(got[1])})")
 
 
+def post_perm_plot(args, kwargs, res, exc):
+    """Perm.ascii_plot: rows from the top value down, the point of column i sits on the grid line of its value"""
+    P = args[0]
+    cs = args[1] if len(args) > 1 else kwargs.get("cell_size", 1)
+    if exc is not None or cs < 1 or not C.is_perm(tuple(P)):
+        return
+    CTX.ev()
+    CTX.count("plot.perm_parsed")
+    n = len(P)
+    rows = [l for l in res.split("\n") if "-" in l or "\u25cf" in l or "+" in l]
+    got = [None] * n
+    ok = len(rows) == n
+    for r, line in enumerate(rows if ok else []):
+        cells = line.replace("-", "")
+        ok = ok and len(cells) == n and cells.count("\u25cf") == 1 and set(cells) <= {"+", "\u25cf"} and len(line) == n + (n + 1) * cs
+        if ok:
+            got[cells.index("\u25cf")] = n - 1 - r
+    if not ok or tuple(got) != tuple(P) or (n and len(res.split("\n")) != n + (n + 1) * cs):
+        report("plot", [enc(P), cs], f"Perm.ascii_plot(cell_size={cs}) of {P!r} does not parse back (read {got})")
+
+
+def post_anchored(args, kwargs, res, exc):
+    P = args[0]
+    p, S = plain(P)
+    n = len(p)
+    cells = [(x, y) for x in range(n + 1) for y in range(n + 1)]
+    CTX.ev()
+    want = (not [c for c in cells if c[0] == n and c not in S], not [c for c in cells if c[1] == n and c not in S],
+            not [c for c in cells if c[0] == 0 and c not in S], not [c for c in cells if c[1] == 0 and c not in S])
+    if exc is not None or tuple(res) != want:
+        report("lookup", [enc(P)], f"has_anchored_point() = {res!r}, (right, top, left, bottom) fully shaded strips are {want}")
+
+
+def post_boxes(args, kwargs, res, exc):
+    P = args[0]
+    p, _S = plain(P)
+    n = len(p)
+    CTX.ev()
+    # the cell (x, y) is the square [x, x+1] x [y, y+1]; the point of column i sits at (i+1, p[i]+1)
+    want = {(x, y) for x in range(n + 1) for y in range(n + 1) if any(x <= i + 1 <= x + 1 and y <= v + 1 <= y + 1 for i, v in enumerate(p))}
+    if exc is not None or set(res) != want:
+        report("lookup", [enc(P)], f"non_pointless_boxes() = {sorted(res) if exc is None else exc!r}, cells with a point on a corner: {sorted(want)}")
+
+
+def post_str(args, kwargs, res, exc):
+    P = args[0]
+    p, S = plain(P)
+    CTX.ev()
+    ok = exc is None and isinstance(res, str) and res.startswith("(") and res.endswith(")") and ", [" in res
+    if ok:
+        head, tail = res[1:-1].split(", [", 1)
+        try:
+            cells = eval("[" + tail, {})
+        except Exception:  # pylint: disable=broad-except
+            cells = None
+        want_head = "\u03b5" if not p else "".join(str(v) if len(p) <= 10 else f"({v})" for v in p)
+        ok = cells == sorted(S) and head == want_head
+    if not ok:
+        report("lookup", [enc(P)], f"str() = {res!r} does not show the pattern {p} and the sorted shading {sorted(S)}")
+
+
+def post_bool(args, kwargs, res, exc):
+    P = args[0]
+    p, S = plain(P)
+    CTX.ev()
+    if exc is not None or res is not bool(p or S):
+        report("lookup", [enc(P)], f"bool() = {res!r} for pattern {p} with {len(S)} shaded cells")
+
+
 def setup(ctx):
     global CTX, MON
     CTX = ctx
@@ -267,6 +336,11 @@ def setup(ctx):
     m.wrap(MeshPatt, "add_decrease", post_add_two("decrease"))
     m.wrap(MeshPatt, "shade", post_shade)
     m.wrap(MeshPatt, "ascii_plot", post_plot)
+    m.wrap(Perm, "ascii_plot", post_perm_plot)
+    m.wrap(MeshPatt, "has_anchored_point", post_anchored)
+    m.wrap(MeshPatt, "non_pointless_boxes", post_boxes)
+    m.wrap(MeshPatt, "__str__", post_str)
+    m.wrap(MeshPatt, "__bool__", post_bool)
 
 
 def teardown(ctx):
@@ -343,6 +417,8 @@ def chk_pattern(ctx, ep, full=True):
     P.shade(*ctx.rng.sample(cells, ctx.rng.randint(0, min(3, len(cells)))))
     for cs in (1, 2, 3):
         P.ascii_plot(cs)
+        P.pattern.ascii_plot(cs)
+    P.has_anchored_point(), P.non_pointless_boxes(), str(P), bool(P)
     # history: objects DERIVED through the API (not rebuilt from their value) are asked the same questions after
     # their parent has been asked - results must depend on the value only
     if ctx.rng.random() > 0.2:
